@@ -59,10 +59,22 @@ fn label(l: &[P], next: &mut usize) -> Vec<Q> {
     }
     out
 }
+/// a variable name made of letters only (the statement must mention its number exactly once)
+fn letters(mut id: usize) -> String { let mut s = String::from("v"); while id > 0 { s.push((b'a' + (id % 26) as u8) as char); id /= 26; } s }
 fn render(l: &[Q], out: &mut String) {
     for s in l {
         match s {
-            Q::Simple(id) => { if id % 2 == 0 { out.push_str(&format!("y += {};\n", id)); } else { out.push_str(&format!("y = x * {};\n", id)); } }
+            // eight statement forms; each mentions its own number exactly once
+            Q::Simple(id) => match id % 8 {
+                0 => out.push_str(&format!("y += {};\n", id)),
+                1 => out.push_str(&format!("y = x * {};\n", id)),
+                2 => out.push_str(&format!("var {} = {};\n", letters(*id), id)),
+                3 => out.push_str(&format!("log({});\n", id)),
+                4 => out.push_str(&format!("assert(x != {});\n", id)),
+                5 => out.push_str(&format!("var {}p = {}, {}q;\n", letters(*id), id, letters(*id))),
+                6 => out.push_str(&format!("y -= {};\n", id)),
+                _ => out.push_str(&format!("arr[0] = {};\n", id)),
+            },
             Q::Ret(id) => out.push_str(&format!("return {};\n", id)),
             Q::If(c, b) => { out.push_str(&format!("if (x < {}) {{\n", c)); render(b, out); out.push_str("}\n"); }
             Q::IfElse(c, a, b) => { out.push_str(&format!("if (x < {}) {{\n", c)); render(a, out); out.push_str("} else {\n"); render(b, out); out.push_str("}\n"); }
@@ -140,11 +152,12 @@ pub fn paths_bounded(tier: &str) {
     'outer: for n in 0..=maxsize {
         for l in lists(n, &mut memo) {
             if started.elapsed() > budget { cut_short = true; break 'outer; }
-            let mut next = 5000usize;
+          for offset in 0..(if tier == "thorough" { 8usize } else { 3usize }) {
+            let mut next = 5000usize + offset;
             let q = label(&l, &mut next);
             let mut body = String::new();
             render(&q, &mut body);
-            let src = format!("function f(x) {{\nvar y = 0;\n{}return y;\n}}\n", body);
+            let src = format!("function f(x) {{\nvar y = 0;\nvar arr[2];\n{}return y;\n}}\n", body);
             evals += 1;
             if body.contains("while") || body.contains("if") || body.contains("for") { nontrivial += 1; }
             if evals % 1499 == 1 && samples.len() < 6 { samples.push(jstr(&src)); }
@@ -186,11 +199,12 @@ pub fn paths_bounded(tier: &str) {
                     viol.push(format!("{{\"unit\":\"paths\",\"fn\":\"build_basic_blocks / visit_statement\",\"obligation\":{},\"input\":{},\"what\":{},\"replay\":\"replay_parser bounded-paths\"}}", jstr(&ob), jstr(&src), jstr(&format!("{} — for\n{}", what, src))));
                 }
             }
+          }
         }
     }
     println!("{{\"unit\":\"paths\",\"evaluations\":{},\"distinct_nontrivial\":{},\"exhaustive\":{},\"rule\":{},\"bound\":{},\"samples\":[{}],\"violations\":[{}]}}",
         evals, nontrivial, if cut_short { "false" } else { "true" },
-        jstr("every function body built from simple statements (plain and compound assignments), return, if, if-else, while and for, each statement and condition carrying its own number; for every sequence of branch decisions the numbers met by an interpreter of the structured source (for = init, condition, body, step; while = condition, body; stop at the first return or when the decisions run out) equal, in order, the numbers met when walking the graph built by the real parse_definition + into_cfg from the entry block, taking the true or false edge of each branch by the same decisions (after a return the walk may go on)"),
-        jstr(&format!("all statement lists with at most {} statement nodes; all {} sequences of {} decisions ({} walks); {} shapes rejected by the Circom grammar skipped{}", maxsize, 1usize << max_decisions, max_decisions, paths, skipped, if cut_short { "; ENUMERATION CUT SHORT by the engine's time budget" } else { "" })),
+        jstr("every function body built from simple statements (eight forms in rotation: `+=`, `-=`, plain assignment, declaration with initial value, declaration of two variables, array element assignment, log, assert), return, if, if-else, while and for, each statement and condition carrying its own number; for every sequence of branch decisions the numbers met by an interpreter of the structured source (for = init, condition, body, step; while = condition, body; stop at the first return or when the decisions run out) equal, in order, the numbers met when walking the graph built by the real parse_definition + into_cfg from the entry block, taking the true or false edge of each branch by the same decisions (after a return the walk may go on)"),
+        jstr(&format!("all statement lists with at most {} statement nodes x 3 (quick) / 8 (thorough) rotations of the statement forms; all {} sequences of {} decisions ({} walks); {} shapes rejected by the Circom grammar skipped{}", maxsize, 1usize << max_decisions, max_decisions, paths, skipped, if cut_short { "; ENUMERATION CUT SHORT by the engine's time budget" } else { "" })),
         samples.join(","), viol.join(","));
 }
